@@ -453,9 +453,9 @@ def shard(kind, *a):
 
 def run(ctx: RunContext) -> int:
     t0 = time.time()
-    n = ctx.scale(3, 38)
+    n = ctx.scale(2, 38)
     ncore = 1 if ctx.quick else 4
-    jobs = [("core", derive_seed(ctx.seed, 99 + j), ctx.scale(18, 200) // ncore) for j in range(ncore)]
+    jobs = [("core", derive_seed(ctx.seed, 99 + j), ctx.scale(12, 200) // ncore) for j in range(ncore)]
     for i in range(16):
         n_black = (1 if i < 4 else 0) if ctx.quick else 2
         jobs.append(("programs", derive_seed(ctx.seed, i), n, i, n_black))
